@@ -6,7 +6,7 @@
   same failure, if any, as the full history.
 -/
 import AcbModel.Props.C04
-import AcbModel.Lemmas.Prefix4
+import AcbModel.Lemmas.Prefix5
 import AcbModel.App.Summary
 namespace Acb
 
@@ -115,6 +115,118 @@ theorem C10_later_rows_partial (dflt : Aff) (init : Option Status) (hi : InitOk 
     · have hnew : Tracker.new dflt none = .ok { m := fun _ => none, latestAll := 0, latestAff := dflt } := rfl
       rw [deltaList_eq_loop hnew, deltaLoop_prefix, hS]
       exact g2
+
+/-- **C10 (later rows, simple mode — partial, loss sales only).**  As `C10_later_rows_partial`, but
+    the window condition is only asked of the later rows that the full, error-free run flags as a
+    loss or superficial loss (`Delta.isLossOrSfl` — the very test `get_summary_range_delta_indicies`
+    applies; a sale at a gain never looks at its window): if for each of those the 30-day window
+    starts after every row of `pre` and after every summary row, then `S ++ later` replayed from
+    nothing yields the summary rows' deltas followed by exactly the later deltas of the full run,
+    without failure. -/
+theorem C10_later_rows_loss_only_partial (dflt : Aff) (init : Option Status) (hi : InitOk dflt init)
+    (pre later : List Tx) (As : List Aff) (hn : As.Nodup) (hd : init ≠ none → dflt ∈ As)
+    (hpre : ∀ x ∈ pre, x.Valid ∧ x.aff ∈ As) (hlater : ∀ x ∈ later, x.Valid ∧ x.aff ∈ As)
+    (day : Aff → Int) :
+    ∃ t0, Tracker.new dflt init = .ok t0 ∧
+      match loopPrefix t0 [] [] pre later with
+      | .inr _ => True
+      | .inl (tP, _, accP) =>
+        (deltaList dflt init (pre ++ later)).2 = none →
+        (∀ d ∈ (deltaList dflt init (pre ++ later)).1.drop accP.length, d.isLossOrSfl = true →
+          (∀ p ∈ pre, p.settle < d.tx.settle - Gen.sflWindowBeforeDays) ∧
+          (∀ a ∈ As, day a < d.tx.settle - Gen.sflWindowBeforeDays)) →
+        ∃ dS, deltaList dflt none (summaryOfTracker tP day As ++ later) =
+            (dS ++ (deltaList dflt init (pre ++ later)).1.drop accP.length, none) ∧
+          dS.length = (summaryOfTracker tP day As).length := by
+  obtain ⟨t0, ht0, hw0⟩ := Tracker.new_wf hi
+  refine ⟨t0, ht0, ?_⟩
+  have hinv0 : Inv2 As t0 := by
+    refine ⟨⟨⟨_, hw0⟩, Tracker.new_sumInv hn hd ht0⟩, ?_⟩
+    intro a ha
+    unfold Tracker.new at ht0
+    cases init with
+    | none => simp only [Except.ok.injEq] at ht0; subst ht0; rfl
+    | some st =>
+      simp only at ht0
+      split at ht0
+      · obtain ⟨_, _, rfl⟩ := setLatest_ok ht0
+        have : a ≠ dflt := fun e => ha (e ▸ hd (by simp))
+        simp [upd, this]
+      · cases ht0
+  have hinv := loopPrefix_inv2 hn later (fun x hx => hlater x hx) pre (pre.map (·.settle))
+    (fun x hx => ⟨hpre x hx, by unfold DatedIn; exact List.mem_map_of_mem hx⟩) t0 [] [] hinv0 (by simp)
+  cases hlp : loopPrefix t0 [] [] pre later with
+  | inr e => trivial
+  | inl s =>
+    obtain ⟨tP, pastP, accP⟩ := s
+    simp only [hlp] at hinv ⊢
+    obtain ⟨hiP, hpastP⟩ := hinv
+    obtain ⟨bs, hr, U, hwP⟩ := hiP.wf
+    intro hok hfar
+    obtain ⟨tS, dS, hS, hobs, hlen⟩ := summary_obsEq hn hiP.sum hiP.supp (statusesOk_of_wf hwP) day dflt later
+    -- the full run, from the summary point on
+    have hfull : deltaList dflt init (pre ++ later) =
+        (accP ++ (deltaLoop tP pastP [] later).1, (deltaLoop tP pastP [] later).2) := by
+      rw [deltaList_eq_loop ht0, deltaLoop_prefix, hlp]
+      exact deltaLoop_acc later tP pastP accP
+    have hdrop : (deltaList dflt init (pre ++ later)).1.drop accP.length = (deltaLoop tP pastP [] later).1 := by
+      rw [hfull]; simp
+    rw [hdrop] at hfar ⊢
+    have hok' : (deltaLoop tP ([] ++ pastP) [] later).2 = none := by
+      rw [hfull] at hok; simpa using hok
+    have hfar' : ∀ d ∈ (deltaLoop tP ([] ++ pastP) [] later).1, d.isLossOrSfl = true →
+        FarFor pastP d.tx ∧ FarFor (summaryOfTracker tP day As).reverse d.tx := by
+      intro d hdm hfl
+      obtain ⟨h1, h2⟩ := hfar d (by simpa using hdm) hfl
+      constructor
+      · intro sh px comm rate crate spec hact p hp
+        have hpm : p ∈ pastP := List.mem_of_mem_head? hp
+        have hdated := (hpastP p hpm).2
+        unfold DatedIn at hdated
+        obtain ⟨q, hq, hqs⟩ := List.mem_map.mp hdated
+        rw [← hqs]; exact h1 q hq
+      · intro sh px comm rate crate spec hact p hp
+        have hpm : p ∈ (summaryOfTracker tP day As).reverse := List.mem_of_mem_head? hp
+        obtain ⟨a, ha, hpa⟩ := mem_summaryOfTracker (List.mem_reverse.mp hpm)
+        rw [hpa]; exact h2 a ha
+    have heng := deltaLoop_far2 pastP (summaryOfTracker tP day As).reverse later tP tS hobs [] hok' hfar'
+    simp only [List.nil_append] at heng hok'
+    refine ⟨dS, ?_, hlen⟩
+    have hnew : Tracker.new dflt none = .ok { m := fun _ => none, latestAll := 0, latestAff := dflt } := rfl
+    rw [deltaList_eq_loop hnew, deltaLoop_prefix, hS]
+    simp only
+    rw [deltaLoop_acc, heng, hok']
+
+/-- What the range selection of the summary checks (`firstConflict`, step 2 of
+    `get_summary_range_delta_indicies`): when it reports no conflict for the deltas after the
+    summary point, settling in non-decreasing order, then every later delta flagged as a loss or
+    superficial loss has its window start after `lastDate` — the hypothesis of the theorem above
+    for the rows before the summary point. -/
+theorem C10_no_conflict_is_far (lastDate : Int) :
+    ∀ (dl : List Delta), dl.Pairwise (fun a b => a.tx.settle ≤ b.tx.settle) → firstConflict lastDate dl = none →
+      ∀ d ∈ dl, d.isLossOrSfl = true → lastDate < d.tx.settle - Gen.sflWindowBeforeDays := by
+  intro dl
+  induction dl with
+  | nil => intro _ _ d hd; simp at hd
+  | cons a rest ih =>
+    intro hs hfc d hd hfl
+    have hsa := List.pairwise_cons.mp hs
+    unfold firstConflict at hfc
+    by_cases ha : a.isLossOrSfl = true
+    · simp only [ha, if_true] at hfc
+      split at hfc
+      · cases hfc
+      · rename_i hnot
+        have hfar_a : lastDate < a.tx.settle - Gen.sflWindowBeforeDays := by omega
+        simp only [List.mem_cons] at hd
+        rcases hd with rfl | hd
+        · exact hfar_a
+        · have := hsa.1 d hd; omega
+    · simp only [ha, Bool.false_eq_true, if_false] at hfc
+      simp only [List.mem_cons] at hd
+      rcases hd with rfl | hd
+      · exact absurd hfl ha
+      · exact ih hsa.2 hfc d hd hfl
 
 /-- The rows `make_simple_summary_txs` emits for an affiliate (model `simpleSummary`) are the rows
     `summaryOfTracker` uses: they depend only on the affiliate's last status and are dated at its
